@@ -358,7 +358,7 @@ def resolve_all():
 
 
 class _CollectLoop:
-    covers = ("found",)      # the accumulator set of the entry call is the state this invariant speaks about
+    covers = "*"             # the accumulator set of the entry call (whatever the local is called) is the state this invariant speaks about
     def __init__(self, holder, obs):
         self.holder, self.obs = holder, obs
 
@@ -413,10 +413,20 @@ def collect():
                         return orig(self_e, tree, *a, **k)
                     finally:
                         depth["d"] -= 1
-                if a or k:
-                    aux["a"], aux["k"] = a, k
+                extras = list(a) + list(k.values())
+                accs = [x for x in extras if isinstance(x, set)]
+                if any(not (x is None or isinstance(x, (int, set))) for x in extras) or len(accs) > 1:
+                    raise Unsupported("the recursion of _collect_macro_names carries a parameter the contract cannot interpret")
+                if [x for x in extras if isinstance(x, int) and not isinstance(x, bool)]:
+                    aux["a"], aux["k"] = tuple(x for x in a if not isinstance(x, set)), {n: v for n, v in k.items() if not isinstance(v, set)}
                 if isinstance(tree, Opaque):
-                    return {("names", tree.ident)}
+                    aux["ih"] = aux.get("ih", 0) + 1
+                    res = {("names", tree.ident)}
+                    if accs:
+                        # an accumulator set threaded through the recursion: the callee adds Names@(tree) to it and hands it back
+                        accs[0].update(res)
+                        return accs[0]
+                    return res
                 return orig(self_e, tree, *a, **k)          # leaves: strings are decided by the real code
             cls._collect_macro_names = wrapped
             # expose the accumulator of the entry call to the loop contract
@@ -454,10 +464,18 @@ def collect():
         if k_ == len(cases) and (aux["a"] or aux["k"]):
             # the recursion carries auxiliary parameters: the same cases again, entered with ARBITRARY values of them
             runs += [(cid2 + "@any-aux", mk2, want2, True) for cid2, (mk2, want2) in cases.items()]
+        aux["ih"] = 0
         try:
             runr = sym_run(with_stub(mk, general))
         except Unsupported as e:
             obs.append(simple_ob(f"_collect_macro_names:{cid}:RUN", func, "RUN", "symbolic execution completes", None, P19, detail=f"unsupported: {e}"))
+            continue
+        needs_ih = any(isinstance(x, tuple) and x and x[0] == "names" for x in want)
+        if needs_ih and not aux.get("ih"):
+            # the children were never handed to the function under contract: the recursion runs through another function
+            # (a helper introduced by a refactoring) -- the induction hypothesis of THIS contract says nothing about it
+            obs.append(simple_ob(f"_collect_macro_names:{cid}:RUN", func, "RUN", "the recursion goes through the function under contract", None, P19,
+                                 detail="unsupported: the children are not processed by recursive calls of _collect_macro_names (the contract does not fit the tree)"))
             continue
         for i, p in enumerate(runr.paths):
             got = p.value if p.kind == "ret" else None
